@@ -5,12 +5,11 @@ for f in $D/refactor*.diff; do
   WT=/tmp/rt/$(basename $f .diff)-$$; mkdir -p /tmp/rt
   git -C /repo worktree add -q --detach $WT HEAD || continue
   if ! (cd $WT && (git apply $f 2>/dev/null || git apply --3way $f 2>/dev/null)); then echo "$(basename $f): APPLY FAILED" >> $LOG; git -C /repo worktree remove --force $WT; continue; fi
-  mkdir -p /tmp/zout/rt; cp /verif/known_findings.json /tmp/zout/rt/
-  for P in C01 C02 C03 C04 C05 C06 C07 C08 C09 C10 C11 C12 C13 C14 C15 C16 C17 C18 C19 C20; do
-    OUT=$(/verif/bin/zcheck -p $P -repo $WT -verif /tmp/zout/rt 2>&1); RC=$?
-    if [ $RC -ne 0 ]; then echo "$(basename $f) $P exit=$RC" >> $LOG; echo "$OUT" | grep -v "^OK\|^KNOWN\|^ *|" | grep "^VIOLATION \|^UNDECIDED\|^ERROR" | grep -v "^VIOLATION property" | cut -c1-400 >> $LOG; fi
-  done
-  echo "$(basename $f): done" >> $LOG
+  mkdir -p /tmp/zout/rt$$; cp /verif/known_findings.json /tmp/zout/rt$$/
+  OUT=$(/verif/bin/zcheck -p all -repo $WT -verif /tmp/zout/rt$$ 2>&1); RC=$?
+  echo "$(basename $f) exit=$RC" >> $LOG
+  echo "$OUT" | grep "^VIOLATION \|^UNDECIDED\|^ERROR" | grep -v "^VIOLATION property" | cut -c1-400 >> $LOG
   git -C /repo worktree remove --force $WT
 done
+rm -rf /tmp/zout/rt$$
 echo ALLDONE >> $LOG
